@@ -69,6 +69,11 @@ CHECKS = {
          'kernel function; W2: family circuits x all {0,1,R,F} stimuli and multi-transition inputs x deviation-bounded delay plans x capacity vectors through WaveSim; '
          'every line waveform is decoded and checked for initial value, parity-final value and terminator',
          'trusted: mc/ref.py Boolean reference, waveform decoder in mc/wsim.py; dyadic times (exact arithmetic); memory reuse off', 'DESIGN.md section 4 C03'),
+
+ 'C04': ('exploration', 'bounded exhaustive enumeration with metamorphic reruns (shift, power-of-two scale) and static-timing oracle',
+         'same kernel and simulator spaces as C03; every case is checked against the static-timing window computed by the harness, re-run with all inputs shifted and '
+         'with all times and delays scaled by powers of two (results must move exactly), and checked for strictly increasing timestamps under polarity-independent delays',
+         'trusted: window computation in mc/wsim.py; exactness relies on dyadic values', 'DESIGN.md section 4 C04'),
 }
 
 NOT_YET = 'check not built yet in this session (see DESIGN.md build order); will be claimed once its exhaustive check exists'
